@@ -971,6 +971,49 @@ def channel_writers(chk):
         chk.ok(rule, cls.qual, "the submit channel and the trio token are bound only in the constructor and inside the trio run (%d writes); the channel is not used as a context manager outside the run" % n_w, node=cls.node)
 
 
+def fallback_checks_own_run(chk):
+    """O3.11: trio.from_thread.run raises its bare RuntimeError in ANY thread that is running a trio task (library fact), not
+    only in the runner's own trio thread.  The in-thread fallback (channel.send_nowait, not thread-safe) is only right in the
+    runner's OWN run: before it touches the channel the handler must compare trio.lowlevel.current_trio_token() with the
+    runner's token -- a payload that hosts its own trio.run (threading flavour) and adopts from inside it otherwise sends
+    from a foreign thread: adopt raises AssertionError and the runtime's trio loop is wedged"""
+    prog = chk.program
+    rule = "O3.11"
+    cls = prog.cls(TRIO_RUNNER)
+    attr, _closes = submit_channel(prog, cls)
+    reg = prog.lookup_method(cls, "register_payload")
+    if attr is None or reg is None:
+        raise Undecided("submit channel / register_payload not found", cls.node)
+    n = 0
+    ok = True
+    for t in ast.walk(reg.node):
+        if not isinstance(t, ast.Try):
+            continue
+        for h in t.handlers:
+            names = [util.unparse(x) for x in (h.type.elts if isinstance(h.type, ast.Tuple) else [h.type])] if h.type is not None else ["BaseException"]
+            if not any(x in ("RuntimeError", "Exception", "BaseException") for x in names):
+                continue
+            sends = [c for b in h.body for c in ast.walk(b) if isinstance(c, ast.Call) and isinstance(c.func, ast.Attribute) and c.func.attr in ("send_nowait", "send") and util.dotted(c.func.value) == "self." + attr]
+            if not sends:
+                continue
+            n += 1
+            chk.count()
+            tested = any("current_trio_token" in util.unparse(x) and ("_trio_token" in util.unparse(x) or "trio_token" in util.unparse(x)) for b in h.body for x in ast.walk(b) if isinstance(x, (ast.Compare, ast.If, ast.Assert)))
+            if not tested:
+                chk.bad(
+                    rule,
+                    reg.qual,
+                    "register_payload takes the bare RuntimeError of trio.from_thread.run to mean 'this is the runner's own trio thread' and sends into the submit channel directly, without comparing trio.lowlevel.current_trio_token() with the runner's token: from a thread that runs ANOTHER trio run (a threading payload hosting its own trio.run) "
+                    "the channel is used from a foreign thread -- adopt raises AssertionError instead of returning None, the payload is not started and the runtime's trio loop is wedged",
+                    node=h,
+                    stmt="fallback-without-own-run-test",
+                    input="adopt(..., flavour=trio) from inside trio.run() of a threading payload",
+                )
+                ok = False
+    if ok:
+        chk.ok(rule, reg.qual, "%d in-thread fallbacks, each compares the current trio token with the runner's before it touches the channel" % n, node=reg.node)
+
+
 def channel_capacity(chk):
     """O3.8: the hand-over channel never makes a registration block or fail (unbounded buffer)"""
     prog = chk.program
@@ -1022,6 +1065,7 @@ def run(chk):
     chk.guard("O3.8", TRIO_RUNNER, channel_capacity, chk)
     chk.guard("O3.5", TRIO_RUNNER, channel_writers, chk)
     chk.guard("O3.5", TRIO_RUNNER, send_after_close, chk)
+    chk.guard("O3.11", TRIO_RUNNER, fallback_checks_own_run, chk)
     chk.guard("O3.1", META, meta_register, chk)
     chk.guard("O3.1", "<runners>", runner_forwards, chk)
     chk.guard("O3.3", SERVICE_RUNNER + ".adopt", adopt_rules, chk)
